@@ -265,6 +265,16 @@ fn check_one<CS: BbsCiphersuite>(rep: &Report, ck: &str, c: &Case) -> CheckResul
                 Ok(b) if &b == $v => {}
                 _ => return rep.fail(ck, &format!("roundtrip:json-{}", $name), format!("{} does not survive serde_json: {}", $name, truncate(&s, 300)), cj(json!(null))),
             }
+            // the other ways a JSON document reaches the type: an owned Value, a reader (a file), a byte slice
+            rep.eval(ck, 3);
+            let via_value = serde_json::to_value($v).ok().and_then(|val| serde_json::from_value::<$ty>(val).ok());
+            let via_reader = serde_json::from_reader::<_, $ty>(std::io::Cursor::new(s.as_bytes().to_vec())).ok();
+            let via_slice = serde_json::from_slice::<$ty>(s.as_bytes()).ok();
+            for (how, got) in [("from_value", via_value), ("from_reader", via_reader), ("from_slice", via_slice)] {
+                if got.as_ref() != Some($v) {
+                    return rep.fail(ck, &format!("roundtrip:json-{}:{}", $name, how), format!("{} written by serde_json is not read back by serde_json::{}", $name, how), cj(json!(null)));
+                }
+            }
         };
     }
     js!("pk", BBSplusPublicKey, pk);
@@ -682,7 +692,7 @@ pub fn run(ctx: &Ctx, rep: &Report) -> Meta {
     }
     Meta {
         rule: "objects produced by the API (keys from generate / random, signatures, blind signatures, proofs with U = 0..4, commitments with M = 0..4, ZKPoK, blind factors, message scalars); \
-               relation (1) decode(encode(x)) = x for octets, public-key coordinates and serde_json, also in volume (9600 quick / 120000 thorough signatures under fresh random keys, a quarter of them with proof, commitment, blind factor and blind signature); relation (2) on honest encodings, single-bit flips (all bits in exhaustive-bit-flips, 48 sampled otherwise), \
+               relation (1) decode(encode(x)) = x for octets, public-key coordinates and serde_json (read back with from_str, from_value, from_reader and from_slice), also in volume (9600 quick / 120000 thorough signatures under fresh random keys, a quarter of them with proof, commitment, blind factor and blind signature); relation (2) on honest encodings, single-bit flips (all bits in exhaustive-bit-flips, 48 sampled otherwise), \
                whole-scalar extensions / truncations, other valid points, r-1, 0: decode(b) = Ok(x) implies encode(x) = b; relation (3) forbidden classes are rejected: trailing bytes 1..=64, every truncation, the uncompressed form of a point spliced in place of the compressed one, several points of cofactor order that cancel in a sum (Abar = Q, Bbar = -Q and the like), \
                scalar in {r, r+1, r+2^k for every k, 2^256-1, 2^256-1-2^k, the honest value + r}, points with x >= p, off-curve, on-curve-but-outside-the-subgroup (found by search and classified with from_compressed_unchecked + is_torsion_free), bad flag combinations, \
                identity as public key (compressed and coordinates), as signature point, as proof point, e = 0; primed-sequences (one thread, nothing else running): the honest key decoded by from_bytes / from_coordinates / not at all, then coordinates with single bits of y or x flipped, halves of y replaced by random octets, p or ff..ff, the negated point, x and y exchanged - accepted coordinates must re-encode to themselves - and every (160 sampled for long encodings) single-bit flip decoded right after its honest encoding; non-trivial = (codec, object) with its derived strings; evaluations = decode/encode judgements"
